@@ -320,6 +320,33 @@ theorem counter_counts_commits (es : List Ev) (c : Nat) :
 example : (run (· + 1) (init 0) [.enter 0, .enter 1, .commit 0, .enter 1, .commit 1, .commit 1]).data = 2 := by
   simp [run, step, init]
 
+/-! the discipline is necessary: what a statement computes its change from must be read INSIDE the critical
+    section.  A statement that evaluates its source before it takes the lock (`INSERT INTO t SELECT MAX(id) + 1
+    FROM t` with the target locked only afterwards — seeded change C09-m12) is the same machine with the read
+    moved in front of `enter`: -/
+
+/-- `early p`: p reads the table WITHOUT the lock; `enter`/`commit` as before, but the commit publishes
+    f(early read) -/
+inductive EvE | early (p : Pid) | enter (p : Pid) | commit (p : Pid)
+
+structure StE (α : Type) where
+  data : α
+  seen : Pid → Option α
+  inside : Option Pid
+
+def stepE {α} (f : α → α) (s : StE α) : EvE → StE α
+  | .early p => { s with seen := fun q => if q = p then some s.data else s.seen q }
+  | .enter p => match s.inside with | none => { s with inside := some p } | some _ => s
+  | .commit p => match s.inside, s.seen p with
+      | some q, some v => if q = p then { s with data := f v, inside := none } else s
+      | _, _ => s
+
+/-- two writers under perfect mutual exclusion, two effective commits, and still one update is lost -/
+theorem early_read_loses_update :
+    (([EvE.early 0, .early 1, .enter 0, .commit 0, .enter 1, .commit 1].foldl (stepE (· + 1))
+        { data := (0 : Nat), seen := fun _ => none, inside := none }).data) = 1 := by
+  decide
+
 end Rmw
 
 /-- the executable explorer used for the failing-schedule search agrees with the proved protocol
